@@ -397,7 +397,7 @@ def _meta_dist(dist, o, kv):
         dist["mutate_calls"] += o.get("calls", 0)
 
 
-META_SLICE = {"C14": "rej/mutate", "C15": "rej/", "C17": "rej/selection", "C05": "rej/inproc", "C03": "rej/termination", "C04": "rej/termination", "C06": "rej/inprocfail"}
+META_SLICE = {"C14": "rej/mutate", "C15": "rej/", "C17": ("rej/selection", "rej/mutate"), "C05": "rej/inproc", "C03": "rej/termination", "C04": "rej/termination", "C06": "rej/inprocfail"}
 
 meta_stream = generic_stream(
     "META", "meta", None,
@@ -599,6 +599,7 @@ PROPS = {
                             "child-process path: the cli stream of C07/C16 (pids of concurrently running children are not compared)"]),
     "C06": _run_prop("C06", [{"kind": "run", "name": "fail", "profile": "fail", "count": {"quick": 320, "thorough": 4000}, "salt": 6},
                              {"kind": "cli", "name": "results", "profile": "results", "count": {"quick": 32, "thorough": 300}, "salt": 61},
+                             {"kind": "cli", "name": "failabort", "profile": "failabort", "count": {"quick": 16, "thorough": 150}, "salt": 62},
                              {"kind": "meta", "name": "inprocfail", "profile": "inprocfail", "count": {"quick": 8, "thorough": 60}, "salt": 62}],
                      None, ["child-process failures through the binary (non-zero exit after a valid result, killed child, unparsable output): cli stream profile results",
                             "threaded in-process evaluation: when a failing run returns, no call of the objective function is still executing (meta stream profile inprocfail)"]),
@@ -628,7 +629,7 @@ PROPS = {
                              {"kind": "ops", "name": "p1long", "profile": "p1long", "count": {"quick": 48, "thorough": 600}, "salt": 173},
                              {"kind": "meta", "name": "selection", "profile": "mixed", "count": {"quick": 120, "thorough": 3000}, "salt": 171},
                              {"kind": "meta", "name": "bench", "profile": "bench", "count": {"quick": 64, "thorough": 1600}, "salt": 172}],
-                     tested=["benchmark battery (8 known-optimum problems x concurrency {1,4} x completion orders chosen by the harness, thresholds in MetaCheck.bench_ok) and 'within a few attempts' for ints: statements about pseudo-random trajectories, tested only; for reals the rule 'a lively interior real changes at probability 1' is checked on every p=1 mutation",
+                     tested=["benchmark battery (10 known-optimum problems x concurrency {1,4} x completion orders chosen by the harness, thresholds in MetaCheck.bench_ok) and 'within a few attempts' for ints: statements about pseudo-random trajectories, tested only; for reals the rule 'a lively interior real changes at probability 1' is checked on every p=1 mutation",
                              "that SelectionImpl::select_ref has the distribution Selection.sel_dist (proved monotone in the rank): 6000 samples per case against the exact rational probabilities within 3 + 7 sigma, plus the source-shape fact select_ref_is_bernoulli_walk_then_uniform"]),
     "C10": {
         "propfile": "theories/Properties/C10.v",
